@@ -353,6 +353,74 @@ class State:
             self.trace.append(why)
 
 
+class Env(dict):
+    """local environment of the function under verification.  `aliases` maps a local name used by the sidecar contract to the name
+    the current source gives the local in the same position (see Executor.local_aliases): a contract written against `ancestors_list`
+    keeps evaluating when the source renames it.  Only lookups of names that do not exist are redirected."""
+    aliases = {}
+
+    def __missing__(self, k):
+        a = self.aliases.get(k)
+        if a is not None and dict.__contains__(self, a):
+            return dict.__getitem__(self, a)
+        raise KeyError(k)
+
+    def get(self, k, default=None):
+        if dict.__contains__(self, k):
+            return dict.__getitem__(self, k)
+        a = self.aliases.get(k)
+        if a is not None and dict.__contains__(self, a):
+            return dict.__getitem__(self, a)
+        return default
+
+    def __deepcopy__(self, memo):
+        e = Env((k, copy.deepcopy(v, memo)) for k, v in self.items())
+        e.aliases = self.aliases
+        return e
+
+
+def local_order(fdef):
+    """names assigned in the function body, in order of first assignment (parameters excluded)"""
+    params = {a.arg for a in fdef.args.posonlyargs + fdef.args.args + fdef.args.kwonlyargs}
+    for a in (fdef.args.vararg, fdef.args.kwarg):
+        if a is not None:
+            params.add(a.arg)
+    names = sorted((n for n in ast.walk(fdef) if isinstance(n, ast.Name) and isinstance(n.ctx, ast.Store)),
+                   key=lambda n: (n.lineno, n.col_offset))
+    out = []
+    for n in names:
+        if n.id not in params and n.id not in out:
+            out.append(n.id)
+    return out
+
+
+def local_aliases(baseline, current):
+    """contract-time local names -> current local names, for names that disappeared; blocks of renamed locals are matched by position
+    between unchanged anchors (difflib), equal-length blocks only"""
+    import difflib
+    if baseline == current:
+        return {}
+    out = {}
+    for tag, i1, i2, j1, j2 in difflib.SequenceMatcher(a=baseline, b=current, autojunk=False).get_opcodes():
+        if tag == "replace" and i2 - i1 == j2 - j1:
+            for a, b in zip(baseline[i1:i2], current[j1:j2]):
+                if a not in current and b not in baseline:
+                    out[a] = b
+    return out
+
+
+_LOCALS_BASELINE = None
+
+
+def locals_baseline():
+    global _LOCALS_BASELINE
+    if _LOCALS_BASELINE is None:
+        import json
+        p = Path(__file__).resolve().parents[2] / "contracts" / "locals_baseline.json"
+        _LOCALS_BASELINE = json.loads(p.read_text()) if p.exists() else {}
+    return _LOCALS_BASELINE
+
+
 def _z3_deepcopy(self, memo):
     return self
 
@@ -2927,13 +2995,24 @@ class Executor:
             cover = Obligation(f"{self.prefix}/pre.cover", self.axioms + st.pc, z3.BoolVal(False), kind="cover")
             self.obligations.append(cover)
             self.cold = contract.snapshot(self, st, args)
-            st.env = dict(extra.get("env", {})) if extra else {}
+            st.env = Env(extra.get("env", {}) if extra else {})
+            base = locals_baseline().get(contract.qual)
+            aliases = local_aliases(base, local_order(fdef)) if base else {}
+            if aliases:
+                # renamed locals: the contract's names are re-mapped by position.  A proof found this way is a proof (invariants are
+                # obligations, never assumptions); a refutation is not trusted (run.py reports it as undecided)
+                st.env.aliases = aliases
+                info["locals_remapped"] = aliases
             self.bind_params(fdef.args, extra.get("positional", []) if extra else [], args, st.env, st)
             exc = contract.raises(self, st, args)
             any_exc = z3.Or(*exc.values()) if exc else z3.BoolVal(False)
             outs = self.exec_block(self.strip_doc(fdef.body), st)
             n_ret = 0
             for pi, (s, o) in enumerate(outs):
+                if isinstance(s.env, Env) and not getattr(contract, "post_reads_locals", False):
+                    # re-mapped names serve loop invariants only; post / raises clauses do not read through them, unless the contract
+                    # opts in (its postcondition must then pin the local it reads to a specification term)
+                    s.env.aliases = {}
                 # vacuity guard per terminal path: the path condition (requires + callee postconditions + library facts + lemma
                 # instances assumed on the way) must not be contradictory, or everything below it would be proved from False
                 if os.environ.get("PYVC_PATH_COVERS"):   # dev aid: lists contradictory terminal paths (infeasible paths show up too)
